@@ -12,7 +12,7 @@ from vfw.engine import Phase, PropertyViolation
 PROPERTY_ID = "C14"
 RULE = (
     "Generator: feasible ModelSpecs (3-5 metabolites x 4-9 reactions x 2-6 genes, pathway/sparse, finite bounds) x "
-    "function (FVA, find_blocked_reactions, find_essential_genes/reactions, single/double gene/reaction deletion) x "
+    "function (FVA - default, loopless on networks without possible internal cycles, fraction_of_optimum, pfba_factor - , find_blocked_reactions, find_essential_genes/reactions, single/double gene/reaction deletion) x "
     "schedule: processes in 2..min(6, items), a permutation of the requested items, per-item delays 0-25 ms drawn from "
     "the case, chunk size 1..4 (vfw/sched.py patches the task function and the pool from the parent; forked workers "
     "inherit it). OptGP sampling with 2-3 processes. Oracle (metamorphic + reference): results under the schedule are "
@@ -29,14 +29,39 @@ ASSUMPTIONS = [
 TOL = 1e-6
 
 
+def _decycle(spec):
+    """Make the network free of possible internal cycles (loopless FVA is exact, and equal to plain FVA, only there) and
+    let every internal reaction admit zero flux: internal reactions that are not in the objective are dropped from the
+    end of the list until no admissible sign pattern contains a cycle. Pure function of the spec."""
+    from vfw.props import c05
+
+    for r in spec["rxns"]:
+        if r["id"] in oracles.internal_ids(spec) and not (r["lb"] <= 0 <= r["ub"]):
+            r["lb"], r["ub"] = (0, r["ub"]) if r["lb"] > 0 else (r["lb"], 0)
+    while c05._has_any_cycle(spec):
+        internal = [i for i in oracles.internal_ids(spec) if i not in spec["objective"]] or oracles.internal_ids(spec)
+        victim = internal[-1]
+        spec["rxns"] = [r for r in spec["rxns"] if r["id"] != victim]
+        spec["objective"].pop(victim, None)
+        for g in spec.get("groups", []):
+            g["members"] = [m for m in g.get("members", []) if list(m) != ["r", victim]]
+
+
+# options that add per-task state to the FVA workers (since seeded change C14-5): the loopless post-processing, the
+# objective-fraction row, the total-flux cap
 @st.composite
 def cases(draw):
     fn = draw(st.sampled_from(["fva", "fva", "blocked", "essential_genes", "essential_rxns", "single_gene", "single_rxn", "double_gene", "double_rxn", "optgp"]))
     spec = draw(specs.model_spec(max_mets=5, min_mets=3, max_rxns=9, min_rxns=4, max_genes=6, min_genes=2, families=("pathway", "pathway", "sparse"),
                                  palette="finite0" if fn in ("blocked", "optgp") else "finite", objective="nonneg", solvers=("glpk",), directions=("max",)))
+    fva_opts = draw(st.sampled_from([{}, {}, {"loopless": True}, {"loopless": True}, {"fraction_of_optimum": 0.5},
+                                     {"pfba_factor": 1.5}, {"fraction_of_optimum": 0.9, "pfba_factor": 1.1}]))
+    if fn == "fva" and fva_opts.get("loopless"):
+        _decycle(spec)
     return {
         "spec": spec,
         "fn": fn,
+        "fva_opts": fva_opts,
         "processes": draw(st.integers(2, 6)),
         "perm": draw(st.permutations(list(range(12)))),
         "delays": draw(st.lists(st.sampled_from([0, 0, 3, 8, 15, 25]), min_size=3, max_size=7)),
@@ -118,18 +143,30 @@ def check_case(case, ctx):
             items = perm(rids, case.get("repeat", 0))
             if case.get("repeat"):
                 classes.append("repeated-item")
-            ref = fa.flux_variability_analysis(model, reaction_list=rids, processes=1)
+            opts = dict(case.get("fva_opts") or {})
+            if opts.get("loopless"):
+                from vfw.props import c05
+
+                rx = {r["id"]: r for r in spec["rxns"]}
+                # loopless FVA is exact (and equal to plain FVA) on networks without possible internal cycles; on cyclic
+                # ones it is a heuristic whose result is not uniquely defined (known finding C05 loopless-fva-inexact),
+                # and the docstring excludes forced internal fluxes
+                if any(not (rx[i]["lb"] <= 0 <= rx[i]["ub"]) for i in oracles.internal_ids(spec)) or c05._has_any_cycle(spec):
+                    opts = {}
+                    classes.append("loopless-not-applicable")
+            classes.append("fva-opts-" + ("+".join(sorted(opts)) or "default"))
+            ref = fa.flux_variability_analysis(model, reaction_list=rids, processes=1, **opts)
             with sched.controlled(module, task, case["delays"], case["chunk"], record):
-                got = fa.flux_variability_analysis(model, reaction_list=items, processes=case["processes"])
+                got = fa.flux_variability_analysis(model, reaction_list=items, processes=case["processes"], **opts)
             if list(got.index) != items:
                 _v("fva:index", f"index {list(got.index)} but requested {items}")
-            _, exact, _ = oracles.fva(spec, rids)
+            _, exact, _ = oracles.fva(spec, rids, fraction=opts.get("fraction_of_optimum", 1), pfba_factor=opts.get("pfba_factor"))
             for pos, rid in enumerate(items):
-                alone = fa.flux_variability_analysis(model, reaction_list=[rid], processes=1)
+                alone = fa.flux_variability_analysis(model, reaction_list=[rid], processes=1, **opts)
                 for col, k in (("minimum", 0), ("maximum", 1)):
                     g, r_, a_, e_ = float(got[col].iloc[pos]), float(ref.at[rid, col]), float(alone.at[rid, col]), exact[rid][k]
                     if not close(g, r_) or not close(g, a_) or (e_ is not None and not close(g, float(e_))):
-                        _v("fva:schedule-dependent", f"{rid} {col}: {g!r} under the schedule (processes={case['processes']}, chunk={case['chunk']}), "
+                        _v("fva:schedule-dependent", f"{rid} {col}: {g!r} under the schedule (processes={case['processes']}, chunk={case['chunk']}, options {opts}), "
                                                     f"{r_!r} serial, {a_!r} alone, exact {e_}")
             varied = len({(round(float(a), 6), round(float(b), 6)) for a, b in zip(got["minimum"], got["maximum"])}) > 1
         else:
